@@ -7,7 +7,7 @@ import subprocess
 
 from .. import common
 from ..common import jhash, CaseTimeout
-from ..gen_prog import gen_program, load_program, Knobs
+from ..gen_prog import GenProgram, HEADER, gen_program, load_program, Knobs
 from ..gen_sched import Session, apply_step, random_step
 
 PROP = "C18"
@@ -25,6 +25,7 @@ ASSUMPTIONS = ["ASLR varies between processes by itself", "the recorded locators
 VARIANTS = [
     ({"PYTHONHASHSEED": "0"}, {}),
     ({"PYTHONHASHSEED": "1"}, {"sym_offset": 1000}),
+    ({"PYTHONHASHSEED": "0"}, {"sym_boundary": 1}),
     ({"PYTHONHASHSEED": "12345"}, {"prior_procs": 3, "extra_defs": "before"}),
     ({"PYTHONHASHSEED": "random"}, {"sym_offset": 1, "extra_defs": "after"}),
     ({"PYTHONHASHSEED": "987654321"}, {"sym_offset": 37, "prior_procs": 1}),
@@ -58,6 +59,44 @@ def weights():
     return _W
 
 
+def t_same_name_sum(rng):
+    """after inlining, two different iterators with one spelling meet in one index expression"""
+    v = rng.choice(["i", "j"])
+    n = rng.choice([3, 4])
+    body = f"""@proc
+def sub(n: size, dst: [f32][n], src: [f32][n]):
+    for {v} in seq(0, n):
+        dst[{v}] = src[{v}] * 2.0
+
+@proc
+def root(x: f32[{2 * n}], y: f32[{2 * n}]):
+    for {v} in seq(0, {n}):
+        sub({n}, y[{v}:{v} + {n}], x[{v}:{v} + {n}])
+"""
+    return GenProgram(HEADER + body, "root", ["sub"], [], {"template": "same_name_sum", "prefer_ops": ["inline", "simplify", "inline_window", "std.cleanup"]})
+
+
+def t_two_precisions(rng):
+    """one library that needs an extern at two precisions and both static helpers"""
+    e1 = rng.choice(["relu", "select", "sin"])
+    call = {"relu": "relu({a})", "sin": "sin({a})", "select": "select({a}, 0.0, 1.0, {a})"}[e1]
+    body = f"""@proc
+def root(n: size, k: index, x: f32[n + 8], y: f64[n + 8]):
+    assert k >= -4
+    assert k <= 4
+    for i in seq(0, n):
+        x[i + k / 2 + 2] = {call.format(a='x[i]')}
+        y[i + k % 3] = {call.format(a='y[i]')}
+"""
+    return GenProgram(HEADER + body, "root", [], [], {"template": "two_precisions", "prefer_ops": ["divide_loop", "simplify", "bind_expr"]})
+
+
+def _template(rng):
+    from ..templates import any_template
+
+    return rng.choice([t_same_name_sum, t_two_precisions, any_template])(rng)
+
+
 def record_sessions(ctx, n, script_len):
     out = []
     tries = 0
@@ -65,14 +104,21 @@ def record_sessions(ctx, n, script_len):
         tries += 1
         rng = random.Random((ctx.seed * 1000003 + ctx.shard * 7919 + tries * 104729) & 0xFFFFFFFF)
         try:
-            gp = gen_program(rng, knobs(rng))
+            if rng.random() < 0.35:
+                gp = _template(rng)
+            else:
+                gp = gen_program(rng, knobs(rng))
             mod = load_program(gp.text, ctx.scratch)
         except Exception:
             continue
         sess = Session(mod, gp.root, gp.text)
         script = []
-        for _ in range(script_len):
-            st = random_step(sess, rng, weights())
+        prefer = (gp.meta or {}).get("prefer_ops")
+        for k_ in range(script_len):
+            if prefer and k_ < 3 and rng.random() < 0.7:
+                st = random_step(sess, rng, {o: 1.0 for o in prefer})
+            else:
+                st = random_step(sess, rng, weights())
             if st is None:
                 continue
             script.append(st)
@@ -161,7 +207,7 @@ def compare(ctx, sessions, base, other, k, rerun=None):
 
 def plan(tier, seed):
     quick = tier == "quick"
-    return {"nshards": 16, "params": {"soft_s": 60 if quick else 600, "sessions": 4 if quick else 50, "script_len": 6 if quick else 12, "variants": 4 if quick else 6}, "hard_timeout_s": 900 if quick else 3400, "max_par": 8}
+    return {"nshards": 16, "params": {"soft_s": 60 if quick else 600, "sessions": 4 if quick else 50, "script_len": 6 if quick else 12, "variants": 5 if quick else 7}, "hard_timeout_s": 900 if quick else 3400, "max_par": 8}
 
 
 def shard(ctx):
